@@ -875,6 +875,13 @@ func (c *TermCtx) Select(a, i *Term) *Term {
 	if a.Sort.Idx != i.Sort {
 		panic(fmt.Sprintf("select index sort %s want %s", i.Sort, a.Sort.Idx))
 	}
+	// heap level (array of arrays): a merged heap read at a merged region splits on the common condition
+	if a.Op == "ite" && a.Sort.Elem.Kind == SArray {
+		if i.Op == "ite" && i.Args[0] == a.Args[0] {
+			return c.Ite(a.Args[0], c.Select(a.Args[1], i.Args[1]), c.Select(a.Args[2], i.Args[2]))
+		}
+		return c.Ite(a.Args[0], c.Select(a.Args[1], i), c.Select(a.Args[2], i))
+	}
 	// read-over-write with syntactically decidable indices
 	cur := a
 	for cur.Op == "store" {
